@@ -102,7 +102,7 @@ package db
 //@   ghost update @conn.BeginTx: began = (result1 == nil)
 //@   ghost update @conn.BeginTx: active = (result1 == nil)
 //@   assert @db.executeStmtWithConn#2: [no-statement-after-stop] !stop
-//@   assert @db.executeStmtWithConn#2: [through-tx] req.Transaction ==> (active && tx != nil)
+//@   assert @db.executeStmtWithConn#2: [through-tx] (req.Transaction ==> (active && tx != nil && arg3 == tx)) && (!req.Transaction ==> arg3 == conn)
 //@   assert @db.executeStmtWithConn#2: [own-statement] arg1 == stmt && stmt.Sql != ""
 //@   ghost update @db.executeStmtWithConn#2: lastErr = result1
 //@   ghost update @db.executeStmtWithConn#2: lastRes = result0
@@ -113,14 +113,14 @@ package db
 //@   ghost update @db.executeStmtWithConn#2: txFailed = txFailed || (result1 != nil && active)
 //@   assert @tx.Rollback#2: [rollback-only-on-failure] active && lastErr != nil
 //@   ghost update @tx.Rollback#2: active = false
-//@   assert @db.executeStmtWithConn#1: [rollback-stmt] !began && req.RollbackOnError && lastErr != nil && arg1.Sql == "ROLLBACK"
+//@   assert @db.executeStmtWithConn#1: [rollback-stmt] !began && req.RollbackOnError && lastErr != nil && arg1.Sql == "ROLLBACK" && arg3 == conn
 //@   ghost update @db.executeStmtWithConn#1: rbIssued = true
 //@   assert @tx.Commit: [commit-only-if-open] active && !txFailed
 //@   ghost update @tx.Commit: committed = true
 //@   ghost update @tx.Commit: commitErr = result
 //@   ghost update @tx.Commit: active = false
 //@   loop 1 invariant [one-result-each] len(allResults) == nExec && (forall j int :: (0 <= j && j < nExec) ==> allResults[j] == R[j])
-//@   loop 1 invariant [tx-state] (req.Transaction ==> began) && (active ==> (began && !txFailed && tx != nil)) && (tx != nil ==> active) && !stop && !committed && !rbIssued && (anyFail ==> (!began && !req.RollbackOnError))
+//@   loop 1 invariant [tx-state] (req.Transaction ==> began) && (active ==> (began && !txFailed && tx != nil)) && (tx != nil ==> active) && !stop && !committed && !rbIssued && (anyFail ==> (!began && !req.RollbackOnError)) && (active ==> eqer == tx) && (!req.Transaction ==> eqer == conn)
 //@   ensures [commit-iff-open] committed == (began && !txFailed)
 //@   ensures [commit-error-returned] committed ==> result1 == commitErr
 //@   ensures [failed-tx-rolled-back] txFailed ==> !active
@@ -174,3 +174,18 @@ package db
 //@   ensures [commit-error-returned] committed ==> result1 == commitErr
 //@   ensures [failed-tx-rolled-back] txFailed ==> !active
 //@   ensures [one-result-each] (began || !req.Transaction) ==> len(result0) == nVisit
+//
+// One statement: the response is never nil, a failure is reported in the response of that
+// statement (its Result is the error variant), and the SQL text executed is the statement's own.
+//@ func rewriteContextTimeout
+//@   pure
+//@   ensures [keeps-failure] (err != nil && retErr != nil) ==> result != nil
+//@ func (*DB) executeStmtWithConn
+//@   requires [args] db != nil && stmt != nil && eq != nil
+//@   assigns *
+//@   assert @eq.ExecContext: [own-sql] arg1 == stmt.Sql
+//@   assert @db.queryStmtWithConn: [own-statement] arg1 == stmt && arg3 == eq
+//@   ensures [response-always] res != nil
+//@   ensures [failure-reported] retErr != nil ==> typeis(res.Result, "*github.com/rqlite/rqlite/v10/command/proto.ExecuteQueryResponse_Error")
+//@ func createEQQueryResponse
+//@   ensures [response-always] result != nil && typeis(result.Result, "*github.com/rqlite/rqlite/v10/command/proto.ExecuteQueryResponse_Q")
